@@ -1,3 +1,4 @@
+// VERIF_FLAGS: -O2
 // C18 -- State stage and cache semantics follow the documented model.
 // Engine E2 (operation histories) directly on a bare SimTK::State.
 //
@@ -116,8 +117,7 @@ std::vector<Fixture> makeFixtures() {
                     auI(0, 2, REP, ACC),                                          // 3
                     ceI(0, 3, TIME, INF, false, false, false, {2}),               // 4 prerequisite = auto-update variable
                     ceI(0, 3, TIME, INF, false, false, false, {}, {2}),           // 5 prerequisite = update cache entry of item 2
-                    dvI(0, 2, MODEL) };                                           // 6 -- hmm allocated at Model stage cannot invalidate Model; fixed below
-        f.items[6] = dvI(0, 1, MODEL);                                            // Model-invalidating variable must be allocated while Empty
+                    dvI(0, 1, MODEL) };                                           // 6 Model-invalidating variable (must be allocated while Empty)
         F.push_back(f);
     }
     {   // 6: allocation-order stress: dependents registered, then the same stacks grow; 3-level cache chain
@@ -147,7 +147,7 @@ std::vector<Fixture> makeFixtures() {
 
 // ------------------------------------------------------------------ reference model
 struct MDv { int item, alloc, inval; bool isAuto; int ce; double val; int64_t lastWrite; double lastUpdT; };
-struct MCe { int item, alloc, dep, comp; bool isAuto; int dv; double val; int64_t mark, expl; bool unspec, ambig; };
+struct MCe { int item, alloc, dep, comp; bool isAuto; int dv; double val; int64_t mark, expl; bool unspec, ambig; bool sinceCopy = false, srcRealized = false; };
 struct MBlock { int alloc, n, aux; };
 struct MSub {
     int stage = 0;
@@ -272,7 +272,7 @@ struct ModelOps {
                     // "copying only state variables and not the cache": nothing above Instance is valid in the
                     // copy until it is marked there.  (Entries marked in violation of the documented
                     // precondition stay unspecified.)
-                    if (!(e.unspec && lat)) { e.mark = 0; e.unspec = false; }
+                    if (!(e.unspec && lat)) { e.mark = 0; e.unspec = false; e.sinceCopy = true; e.srcRealized = src.sub[s].stage >= e.dep; }
                 } else if (lat) e.unspec = true;   // Instance and below: the implementation keeps them, the docs say cache is not copied
                 e.ambig = false;
             }
@@ -284,3 +284,843 @@ struct ModelOps {
         return M;
     }
 };
+
+// ------------------------------------------------------------------ operations
+enum Kind { K_ADV, K_ADVSYS, K_INVALL, K_INVCACHE, K_TIME, K_Q, K_U, K_Z, K_Y, K_QS, K_US, K_ZS, K_UW, K_ZW, K_UWS, K_ZWS,
+            K_QEW, K_UEW, K_QEWS, K_UEWS, K_DV, K_MARK, K_UNMARK, K_UPDCE, K_AUTO, K_COPYCTOR, K_ASSIGN_TS, K_ASSIGN_ST,
+            K_SWAP, K_CLEAR, K_INIT, K_NKINDS };
+const char* KN[] = {"advanceSubsystemToStage", "advanceSystemToStage", "invalidateAll", "invalidateAllCacheAtOrAbove", "updTime",
+                    "updQ-global", "updU-global", "updZ-global", "updY", "updQ-sub", "updU-sub", "updZ-sub", "updUWeights-global",
+                    "updZWeights-global", "updUWeights-sub", "updZWeights-sub", "updQErrWeights-global", "updUErrWeights-global",
+                    "updQErrWeights-sub", "updUErrWeights-sub", "updDiscreteVariable", "markCacheValueRealized",
+                    "markCacheValueNotRealized", "updCacheEntry", "autoUpdateDiscreteVariables", "copy-construct", "copy-assign-T=S",
+                    "copy-assign-S=T", "move-swap", "clear", "init"};
+struct Op { int kind, a; bool core; std::string name; };
+
+// (stage that must be invalidated for soundness, whether the documentation states the stage exactly)
+struct InvRule { int must; bool exact; };
+InvRule ruleOf(int kind) {
+    switch (kind) {
+        case K_TIME: return {TIME, true};      // State.h: "the stage will be backed up if necessary to the indicated stage" (Time-1)
+        case K_Q:    return {POS, true};
+        case K_U:    return {VEL, true};
+        case K_Z:    return {DYN, true};
+        case K_Y:    return {POS, false};      // the remark says Dynamics-1 although y contains q: only the sound direction is demanded
+        case K_QS:   return {POS, false};      // per-subsystem overloads carry no documentation
+        case K_US:   return {VEL, false};
+        case K_ZS:   return {DYN, false};
+        case K_UW:   return {REP, true};       // "This will invalidate just Report stage"
+        case K_ZW:   return {REP, true};       // "will invalidate just Report stage"
+        case K_UWS:  return {REP, false};
+        case K_ZWS:  return {REP, false};
+        case K_QEW:  return {POS, true};       // "Position stage is invalidated"
+        case K_UEW:  return {VEL, true};       // "Velocity stage is invalidated"
+        case K_QEWS: return {POS, false};
+        case K_UEWS: return {VEL, false};
+        default:     return {INF, false};
+    }
+}
+
+std::vector<Op> makeOps(const Fixture& F) {
+    // `core` operations are the ones histories are extended with in the plain mode; every operation (core or not) is
+    // evaluated as the last operation of every history.  The BFS mode expands with all of them.
+    std::vector<Op> ops;
+    bool hasAuto = false; for (auto& it : F.items) hasAuto |= it.kind == 'A';
+    auto add = [&](int k, int a, bool core, const std::string& nm) { ops.push_back(Op{k, a, core, nm}); };
+    for (int s = 0; s < F.nsub; ++s) add(K_ADV, s, true, "adv(" + std::to_string(s) + ")");
+    add(K_ADVSYS, 0, true, "advSys");
+    for (int g = TOPO; g <= REP; ++g) add(K_INVALL, g, g == INST || g == POS, std::string("invAll(") + SN[g] + ")");
+    for (int g = MODEL; g <= REP; ++g) add(K_INVCACHE, g, g == DYN, std::string("invCache(") + SN[g] + ")");
+    add(K_TIME, 0, true, "updTime"); add(K_Q, 0, true, "updQ"); add(K_U, 0, false, "updU"); add(K_Z, 0, true, "updZ"); add(K_Y, 0, false, "updY");
+    for (int s = 0; s < F.nsub; ++s) {
+        std::string p = "(" + std::to_string(s) + ")";
+        add(K_QS, s, false, "updQ" + p); add(K_US, s, false, "updU" + p); add(K_ZS, s, false, "updZ" + p);
+        add(K_UWS, s, false, "updUWeights" + p); add(K_ZWS, s, false, "updZWeights" + p);
+        add(K_QEWS, s, false, "updQErrWeights" + p); add(K_UEWS, s, false, "updUErrWeights" + p);
+    }
+    add(K_UW, 0, false, "updUWeights"); add(K_ZW, 0, false, "updZWeights");
+    add(K_QEW, 0, false, "updQErrWeights"); add(K_UEW, 0, false, "updUErrWeights");
+    for (size_t i = 0; i < F.items.size(); ++i) {
+        char k = F.items[i].kind; std::string p = "(" + std::to_string(i) + ")";
+        if (k == 'D' || k == 'A') add(K_DV, (int)i, true, "updDV" + p);
+        if (k == 'C' || k == 'A') {
+            bool isPrereq = false; for (auto& o : F.items) for (int c : o.pc) isPrereq |= c == (int)i;
+            add(K_MARK, (int)i, true, "mark" + p); add(K_UNMARK, (int)i, isPrereq, "unmark" + p); add(K_UPDCE, (int)i, k == 'A', "updCE" + p);
+        }
+    }
+    add(K_AUTO, 0, hasAuto, "autoUpdate");
+    add(K_COPYCTOR, 0, true, "T=State(S)"); add(K_ASSIGN_TS, 0, false, "T=S"); add(K_ASSIGN_ST, 0, true, "S=T");
+    add(K_SWAP, 0, true, "swap"); add(K_CLEAR, 0, false, "clear"); add(K_INIT, 0, true, "init");
+    return ops;
+}
+
+// ------------------------------------------------------------------ the world: two real States and their models
+struct World {
+    State S, T;
+    Model mS, mT;
+    int64_t now = 1;
+    Array_<StageVersion> snapWin, snapStep;
+    int snapWinSys = 0, snapStepSys = 0;
+};
+
+// reporting context for one operation application
+struct Ctx {
+    verif::Run* run = nullptr;
+    bool check = false;           // evaluate the complete oracle
+    bool stepWindowOnly = false;  // BFS: version-difference oracle over one step only
+    std::function<std::string()> where, replay;
+    int64_t nChecks = 0;
+    int64_t nowForResync = 0;
+    std::string tag;              // "<mode>|<fixture>" for the cross-check between the two modes
+    bool bad = false;             // a violation that makes model and implementation diverge: do not extend this history
+    bool verbose = false;
+    void fail(const std::string& key, const std::string& msg, bool diverges = true) {
+        if (diverges) bad = true;
+        if (run) run->violation(key, msg + " | at " + (where ? where() : ""), replay ? replay() : "");
+        if (run) run->count("oracle:" + key + ":FAIL");
+        if (run && !tag.empty()) run->count("viol|" + tag + "|" + key);
+    }
+};
+
+struct Engine {
+    const Fixture& F;
+    ModelOps MO;
+    std::vector<Op> ops;
+    explicit Engine(const Fixture& f) : F(f), MO(f), ops(makeOps(f)) {}
+
+    // ---------------------------------------------------------------- enabledness (documented preconditions)
+    bool enabled(const World& w, const Op& op) const {
+        const Model& M = w.mS;
+        if (op.kind == K_INIT) return M.nsub == 0;
+        if (op.kind == K_COPYCTOR || op.kind == K_ASSIGN_TS || op.kind == K_ASSIGN_ST || op.kind == K_SWAP || op.kind == K_CLEAR) return true;
+        if (M.nsub == 0) return false;
+        switch (op.kind) {
+            case K_ADV: return MO.canAdvSub(M, op.a);
+            case K_ADVSYS: return MO.canAdvSys(M);
+            case K_INVALL: case K_INVCACHE: case K_AUTO: return true;
+            case K_TIME: return M.sys >= TOPO;
+            case K_Q: case K_U: case K_Z: case K_Y: case K_QS: case K_US: case K_ZS: case K_UW: case K_ZW: case K_UWS: case K_ZWS: return M.sys >= MODEL;
+            case K_QEW: case K_UEW: case K_QEWS: case K_UEWS: return M.sys >= INST;
+            case K_DV: return M.dvOf[op.a] >= 0;
+            case K_MARK: { if (M.ceOf[op.a] < 0) return false; const MCe& e = MO.ceOfItem(M, op.a); return M.sub[F.items[op.a].sub].stage >= e.dep - 1; }
+            case K_UNMARK: case K_UPDCE: return M.ceOf[op.a] >= 0;
+        }
+        return false;
+    }
+
+    // ---------------------------------------------------------------- allocation done while realizing stage g of subsystem s
+    void allocate(State& X, Model& M, int s, int g, Ctx& c) const {
+        const SubsystemIndex sx(s);
+        MSub& ss = M.sub[s];
+        for (size_t i = 0; i < F.items.size(); ++i) {
+            const Item& it = F.items[i];
+            if (it.sub != s || it.alloc != g) continue;
+            switch (it.kind) {
+                case 'Q': { int exp = sumBlocks(ss.qb); int got = X.allocateQ(sx, Vector(it.a, VV->qi)); ss.qb.push_back({g, it.a, 0}); c.nChecks++; if (got != exp) c.fail("allocate/index", "allocateQ returned " + std::to_string(got) + " expected " + std::to_string(exp)); break; }
+                case 'U': { int exp = sumBlocks(ss.ub); int got = X.allocateU(sx, Vector(it.a, VV->ui)); ss.ub.push_back({g, it.a, 0}); c.nChecks++; if (got != exp) c.fail("allocate/index", "allocateU returned " + std::to_string(got)); break; }
+                case 'Z': { int exp = sumBlocks(ss.zb); int got = X.allocateZ(sx, Vector(it.a, VV->zi)); ss.zb.push_back({g, it.a, 0}); c.nChecks++; if (got != exp) c.fail("allocate/index", "allocateZ returned " + std::to_string(got)); break; }
+                case 'e': {
+                    int got = -1, exp = -1;
+                    if (it.a == 0) { exp = sumBlocks(ss.qeb); got = X.allocateQErr(sx, it.b); ss.qeb.push_back({g, it.b, 0}); }
+                    else if (it.a == 1) { exp = sumBlocks(ss.ueb); got = X.allocateUErr(sx, it.b); ss.ueb.push_back({g, it.b, 0}); }
+                    else if (it.a == 2) { exp = sumBlocks(ss.udeb); got = X.allocateUDotErr(sx, it.b); ss.udeb.push_back({g, it.b, 0}); }
+                    else { exp = 0; for (auto& b : ss.trg) if (b.aux == it.c) exp += b.n; got = X.allocateEventTrigger(sx, stg(it.c), it.b); ss.trg.push_back({g, it.b, it.c}); }
+                    c.nChecks++; if (got != exp) c.fail("allocate/index", "constraint-error/trigger slot allocation returned " + std::to_string(got) + " expected " + std::to_string(exp));
+                    break;
+                }
+                case 'D': {
+                    int exp = (int)ss.dv.size();
+                    int got = X.allocateDiscreteVariable(sx, stg(it.a), new Value<double>(VV->di));
+                    ss.dv.push_back(MDv{(int)i, g, it.a, false, -1, VV->di, 0, NaN}); M.dvOf[i] = exp;
+                    c.nChecks++; if (got != exp) c.fail("allocate/index", "allocateDiscreteVariable returned " + std::to_string(got));
+                    break;
+                }
+                case 'A': {
+                    int expD = (int)ss.dv.size(), expC = (int)ss.ce.size();
+                    int got = X.allocateAutoUpdateDiscreteVariable(sx, stg(it.a), new Value<double>(VV->di), stg(it.b));
+                    int gotC = X.getDiscreteVarUpdateIndex(sx, DiscreteVariableIndex(got));
+                    ss.dv.push_back(MDv{(int)i, g, it.a, true, expC, VV->di, 0, NaN}); M.dvOf[i] = expD;
+                    ss.ce.push_back(MCe{(int)i, g, it.b, INF, true, expD, VV->di, 0, 0, false, false}); M.ceOf[i] = expC;
+                    c.nChecks++; if (got != expD || gotC != expC) c.fail("allocate/index", "allocateAutoUpdateDiscreteVariable returned " + std::to_string(got) + "/" + std::to_string(gotC));
+                    break;
+                }
+                case 'C': {
+                    int exp = (int)ss.ce.size(), got;
+                    bool pre = it.pq || it.pu || it.pz || !it.pd.empty() || !it.pc.empty();
+                    if (pre) {
+                        Array_<DiscreteVarKey> dk; Array_<CacheEntryKey> ck;
+                        for (int d : it.pd) dk.push_back(DiscreteVarKey(SubsystemIndex(F.items[d].sub), DiscreteVariableIndex(M.dvOf[d])));
+                        for (int e : it.pc) ck.push_back(CacheEntryKey(SubsystemIndex(F.items[e].sub), CacheEntryIndex(M.ceOf[e])));
+                        got = X.allocateCacheEntryWithPrerequisites(sx, stg(it.a), stg(it.b), it.pq, it.pu, it.pz, dk, ck, new Value<double>(VV->ci));
+                    } else got = X.allocateCacheEntry(sx, stg(it.a), stg(it.b), new Value<double>(VV->ci));
+                    ss.ce.push_back(MCe{(int)i, g, it.a, it.b, false, -1, VV->ci, 0, 0, false, false}); M.ceOf[i] = exp;
+                    c.nChecks++; if (got != exp) c.fail("allocate/index", "allocateCacheEntry returned " + std::to_string(got));
+                    break;
+                }
+            }
+        }
+    }
+
+    static void setAll(std::vector<double>& v, double x) { for (auto& e : v) e = x; }
+    static double cur(const std::vector<double>& v, double dflt) { return v.empty() ? dflt : v[0]; }
+    // first value of a per-subsystem vector member over all subsystems (dflt if none has elements)
+    static double first(const Model& M, std::vector<double> MSub::*mem, double dflt) { for (auto& ss : M.sub) if (!(ss.*mem).empty()) return (ss.*mem)[0]; return dflt; }
+
+    // After an invalidating operation: compare observed stages with the expectation "stage := min(stage, g-1)".
+    // Over-invalidation re-synchronises the model (and is a violation only where the documentation states the stage).
+    void reconcileStages(const State& X, Model& M, const std::vector<int>& before, int sysBefore, int g, bool exact, const Op& op, int64_t now, Ctx& c) const {
+        int low = INF; bool under = false;
+        auto look = [&](int obs, int bef) { int e = std::min(bef, g - 1); if (obs > e) under = true; if (obs < e) low = std::min(low, obs + 1); };
+        for (int s = 0; s < M.nsub; ++s) look((int)X.getSubsystemStage(SubsystemIndex(s)), before[s]);
+        look((int)X.getSystemStage(), sysBefore);
+        c.nChecks += M.nsub + 1;
+        if (under) { c.fail(std::string(KN[op.kind]) + "/under-invalidates", op.name + " left a stage above " + SN[g - 1] + " (must invalidate " + SN[g] + ")"); return; }
+        if (low < INF) {
+            if (exact) c.fail(std::string(KN[op.kind]) + "/over-invalidates-" + SN[low], op.name + " invalidated stage " + SN[low] + " although the documentation says it invalidates " + (g <= REP ? SN[g] : "nothing"), false);
+            else if (c.run && c.check) c.run->count(std::string("unspecified:over-invalidation-undocumented:") + KN[op.kind]);
+            MO.invalidate(M, low, now);     // follow the implementation so that the rest of the history stays comparable
+        }
+    }
+
+    // ---------------------------------------------------------------- apply one operation to implementation and model
+    // returns false if model and implementation have diverged (do not extend)
+    bool apply(World& w, const Op& op, Ctx& c) const {
+        w.now++;
+        const int64_t now = w.now;
+        c.nowForResync = now;
+        State& S = w.S; Model& M = w.mS;
+        std::vector<int> before(M.nsub); for (int s = 0; s < M.nsub; ++s) before[s] = M.sub[s].stage;
+        const int sysBefore = M.sys;
+        for (int i = 0; i < 11; ++i) M.bumpedStep[i] = false;
+        bool replaced = false;     // the whole State object content was replaced: no version continuity
+        ValueVersion qv0 = 0, uv0 = 0, zv0 = 0, dvv0 = 0, cev0 = 0;
+        if (M.nsub > 0 || true) { qv0 = S.getQValueVersion(); uv0 = S.getUValueVersion(); zv0 = S.getZValueVersion(); }
+        if (c.check) { S.getSystemStageVersions(w.snapStep); w.snapStepSys = M.sys; }
+        bool wroteQ = false, wroteU = false, wroteZ = false;
+        try {
+            switch (op.kind) {
+                case K_INIT: {
+                    S.setNumSubsystems(F.nsub);
+                    for (int s = 0; s < F.nsub; ++s) S.initializeSubsystem(SubsystemIndex(s), "sub" + std::to_string(s), "v" + std::to_string(s));
+                    MO.init(M); replaced = true; break;
+                }
+                case K_ADV: {
+                    int s = op.a, g = M.sub[s].stage + 1;
+                    if (g <= INST) allocate(S, M, s, g, c);
+                    S.advanceSubsystemToStage(SubsystemIndex(s), stg(g));
+                    M.sub[s].stage = g; break;
+                }
+                case K_ADVSYS: { int g = M.sys + 1; S.advanceSystemToStage(stg(g)); MO.advSys(M, now); break; }
+                case K_INVALL: { S.invalidateAll(stg(op.a)); MO.invalidate(M, op.a, now); reconcileStages(S, M, before, sysBefore, op.a, true, op, now, c); break; }
+                case K_INVCACHE: {
+                    if (op.a < INST) {
+                        bool threw = false;
+                        try { S.invalidateAllCacheAtOrAbove(stg(op.a)); } catch (const std::exception&) { threw = true; }
+                        c.nChecks++; if (!threw) c.fail("invalidateAllCacheAtOrAbove/accepts-stage-below-Instance", "invalidateAllCacheAtOrAbove(Model) did not throw");
+                    } else { S.invalidateAllCacheAtOrAbove(stg(op.a)); MO.invalidate(M, op.a, now); reconcileStages(S, M, before, sysBefore, op.a, true, op, now, c); }
+                    break;
+                }
+                case K_TIME: { double nv = toggle(M.t, VV->v); S.updTime() = nv; MO.invalidate(M, TIME, now); M.t = nv; break; }
+                case K_Q: { double nv = toggle(first(M, &MSub::q, VV->qi), VV->v); S.updQ() = nv; MO.invalidate(M, POS, now); M.qW = now; for (auto& ss : M.sub) setAll(ss.q, nv); wroteQ = true; break; }
+                case K_U: { double nv = toggle(first(M, &MSub::u, VV->ui), VV->v); S.updU() = nv; MO.invalidate(M, VEL, now); M.uW = now; for (auto& ss : M.sub) setAll(ss.u, nv); wroteU = true; break; }
+                case K_Z: { double nv = toggle(first(M, &MSub::z, VV->zi), VV->v); S.updZ() = nv; MO.invalidate(M, DYN, now); M.zW = now; for (auto& ss : M.sub) setAll(ss.z, nv); wroteZ = true; break; }
+                case K_Y: {
+                    double nv = toggle(first(M, &MSub::q, first(M, &MSub::u, first(M, &MSub::z, VV->qi))), VV->v); S.updY() = nv; MO.invalidate(M, POS, now); M.qW = M.uW = M.zW = now;
+                    for (auto& ss : M.sub) { setAll(ss.q, nv); setAll(ss.u, nv); setAll(ss.z, nv); }
+                    wroteQ = wroteU = wroteZ = true; break;
+                }
+                case K_QS: { MSub& ss = M.sub[op.a]; double nv = toggle(cur(ss.q, VV->qi), VV->v); S.updQ(SubsystemIndex(op.a)) = nv; MO.invalidate(M, POS, now); M.qW = now; setAll(ss.q, nv); wroteQ = true; break; }
+                case K_US: { MSub& ss = M.sub[op.a]; double nv = toggle(cur(ss.u, VV->ui), VV->v); S.updU(SubsystemIndex(op.a)) = nv; MO.invalidate(M, VEL, now); M.uW = now; setAll(ss.u, nv); wroteU = true; break; }
+                case K_ZS: { MSub& ss = M.sub[op.a]; double nv = toggle(cur(ss.z, VV->zi), VV->v); S.updZ(SubsystemIndex(op.a)) = nv; MO.invalidate(M, DYN, now); M.zW = now; setAll(ss.z, nv); wroteZ = true; break; }
+                case K_UW: { double nv = toggle(first(M, &MSub::uw, 1.0), VV->w); S.updUWeights() = nv; MO.invalidate(M, REP, now); for (auto& ss : M.sub) setAll(ss.uw, nv); break; }
+                case K_ZW: { double nv = toggle(first(M, &MSub::zw, 1.0), VV->w); S.updZWeights() = nv; MO.invalidate(M, REP, now); for (auto& ss : M.sub) setAll(ss.zw, nv); break; }
+                case K_UWS: { MSub& ss = M.sub[op.a]; double nv = toggle(cur(ss.uw, 1.0), VV->w); S.updUWeights(SubsystemIndex(op.a)) = nv; MO.invalidate(M, REP, now); setAll(ss.uw, nv); break; }
+                case K_ZWS: { MSub& ss = M.sub[op.a]; double nv = toggle(cur(ss.zw, 1.0), VV->w); S.updZWeights(SubsystemIndex(op.a)) = nv; MO.invalidate(M, REP, now); setAll(ss.zw, nv); break; }
+                case K_QEW: { double nv = toggle(first(M, &MSub::qew, 1.0), VV->w); S.updQErrWeights() = nv; MO.invalidate(M, POS, now); for (auto& ss : M.sub) setAll(ss.qew, nv); break; }
+                case K_UEW: { double nv = toggle(first(M, &MSub::uew, 1.0), VV->w); S.updUErrWeights() = nv; MO.invalidate(M, VEL, now); for (auto& ss : M.sub) setAll(ss.uew, nv); break; }
+                case K_QEWS: { MSub& ss = M.sub[op.a]; double nv = toggle(cur(ss.qew, 1.0), VV->w); S.updQErrWeights(SubsystemIndex(op.a)) = nv; MO.invalidate(M, POS, now); setAll(ss.qew, nv); break; }
+                case K_UEWS: { MSub& ss = M.sub[op.a]; double nv = toggle(cur(ss.uew, 1.0), VV->w); S.updUErrWeights(SubsystemIndex(op.a)) = nv; MO.invalidate(M, VEL, now); setAll(ss.uew, nv); break; }
+                case K_DV: {
+                    int s = F.items[op.a].sub, ix = M.dvOf[op.a];
+                    const DiscreteVarKey key{SubsystemIndex(s), DiscreteVariableIndex(ix)};
+                    dvv0 = S.getDiscreteVarInfo(key).getValueVersion();
+                    int g = M.sub[s].dv[ix].inval; double nv = toggle(M.sub[s].dv[ix].val, VV->v);
+                    Value<double>::updDowncast(S.updDiscreteVariable(key.first, key.second)) = nv;
+                    MO.invalidate(M, g, now);
+                    MDv& d = M.sub[s].dv[ix];        // survives: allocation stage < invalidated stage
+                    d.val = nv; d.lastWrite = now; d.lastUpdT = M.t;
+                    if (d.isAuto) M.sub[s].ce[d.ce].expl = now;   // "The auto-update cache entry is always invalidated by an explicit change to the variable"
+                    reconcileStages(S, M, before, sysBefore, g, true, op, now, c);
+                    c.nChecks++; if (!(S.getDiscreteVarInfo(key).getValueVersion() > dvv0)) c.fail("value-version/discrete-variable-not-increased", "value version of the discrete variable did not increase in " + op.name, false);
+                    break;
+                }
+                case K_MARK: {
+                    int s = F.items[op.a].sub, ix = M.ceOf[op.a]; MCe& e = M.sub[s].ce[ix];
+                    if (e.isAuto) S.markDiscreteVarUpdateValueRealized(SubsystemIndex(s), DiscreteVariableIndex(e.dv));
+                    else S.markCacheValueRealized(SubsystemIndex(s), CacheEntryIndex(ix));
+                    e.mark = now; e.ambig = false; e.sinceCopy = false;
+                    e.unspec = M.sub[s].stage < e.dep;     // marked below the documented minimum stage: validity afterwards is unspecified
+                    break;
+                }
+                case K_UNMARK: {
+                    int s = F.items[op.a].sub, ix = M.ceOf[op.a]; MCe& e = M.sub[s].ce[ix];
+                    const CacheEntryKey key{SubsystemIndex(s), CacheEntryIndex(ix)};
+                    cev0 = S.getCacheEntryInfo(key).getValueVersion();
+                    S.markCacheValueNotRealized(key.first, key.second);
+                    e.expl = now; if (M.sub[s].stage >= e.comp) e.ambig = true;   // docs conflict: "will return false" vs. presumed valid at computed-by stage
+                    c.nChecks++; if (!(S.getCacheEntryInfo(key).getValueVersion() > cev0)) c.fail("value-version/cache-entry-not-increased-by-invalidation", "value version of the cache entry did not increase in " + op.name, false);
+                    break;
+                }
+                case K_UPDCE: {
+                    int s = F.items[op.a].sub, ix = M.ceOf[op.a]; MCe& e = M.sub[s].ce[ix];
+                    double nv = toggle(e.val, VV->v);
+                    if (e.isAuto) Value<double>::updDowncast(S.updDiscreteVarUpdateValue(SubsystemIndex(s), DiscreteVariableIndex(e.dv))) = nv;
+                    else Value<double>::updDowncast(S.updCacheEntry(SubsystemIndex(s), CacheEntryIndex(ix))) = nv;
+                    e.val = nv; break;
+                }
+                case K_AUTO: {
+                    S.autoUpdateDiscreteVariables();
+                    for (int s = 0; s < M.nsub; ++s) for (auto& d : M.sub[s].dv) {
+                        if (!d.isAuto) continue;
+                        MCe& e = M.sub[s].ce[d.ce];
+                        Tri v = MO.valid(M, s, e);
+                        if (v == UNSPEC) { if (c.run) c.run->harnessError("autoUpdate on an entry of unspecified validity"); continue; }
+                        if (v != YES) continue;
+                        std::swap(d.val, e.val); d.lastUpdT = M.t; e.expl = now;
+                        // entries that named the variable itself as prerequisite: the documentation does not say (nothing is invalidated by the swap)
+                        for (int s2 = 0; s2 < M.nsub; ++s2) for (auto& e2 : M.sub[s2].ce) {
+                            if (e2.isAuto) continue;
+                            bool dep = false; for (int p : F.items[e2.item].pd) if (p == d.item) dep = true;
+                            if (dep && MO.latent(M, s2, e2)) { e2.unspec = true; if (c.run && c.check) c.run->count("unspecified:autoUpdate-swap-with-dependent-of-the-variable"); }
+                        }
+                    }
+                    break;
+                }
+                case K_COPYCTOR: { State tmp(S); w.T = std::move(tmp); w.mT = MO.copyOf(M, now); break; }   // copy constructor, then move assignment (pointer swap)
+                case K_ASSIGN_TS: { w.T = S; w.mT = MO.copyOf(M, now); break; }
+                case K_ASSIGN_ST: { S = w.T; M = MO.copyOf(w.mT, now); replaced = true; break; }
+                case K_SWAP: { State tmp(std::move(S)); S = std::move(w.T); w.T = std::move(tmp); std::swap(w.mS, w.mT); replaced = true; break; }
+                case K_CLEAR: { S.clear(); Model e; M = e; replaced = true; break; }
+            }
+            InvRule r = ruleOf(op.kind);
+            if (r.must < INF) reconcileStages(S, M, before, sysBefore, r.must, r.exact, op, now, c);
+        } catch (const std::exception& e) {
+            c.fail(std::string("unexpected-exception/") + KN[op.kind], op.name + " threw: " + std::string(e.what()).substr(0, 300));
+            return false;
+        }
+        if (c.bad) return false;
+        try {
+        // ---- value versions of q,u,z (State.h: "incremented whenever any q is changed (... returned with writable access)")
+        if (!replaced) {
+            ValueVersion qv = S.getQValueVersion(), uv = S.getUValueVersion(), zv = S.getZValueVersion();
+            c.nChecks += 3;
+            if (wroteQ && !(qv > qv0)) c.fail("value-version/q-not-increased", "q value version not increased by " + op.name, false);
+            if (wroteU && !(uv > uv0)) c.fail("value-version/u-not-increased", "u value version not increased by " + op.name, false);
+            if (wroteZ && !(zv > zv0)) c.fail("value-version/z-not-increased", "z value version not increased by " + op.name, false);
+            if (qv < qv0 || uv < uv0 || zv < zv0) c.fail("value-version/decreased", "a q/u/z value version decreased in " + op.name, false);
+        }
+        adopt(S, M, c, "S"); adopt(w.T, w.mT, c, "T");
+        if (replaced) { S.getSystemStageVersions(w.snapWin); w.snapWinSys = w.mS.sys; for (int i = 0; i < 11; ++i) w.mS.bumpedWin[i] = false; }
+        else if (c.check) {
+            // ---- system stage versions through the public API
+            int expStep = expectedDiff(w.mS.bumpedStep, w.snapStepSys, w.mS.sys);
+            int gotStep = (int)S.getLowestSystemStageDifference(w.snapStep);
+            c.nChecks++; if (gotStep != expStep) c.fail("stage-version/lowest-difference-one-step", std::string("getLowestSystemStageDifference over ") + op.name + " = " + SN[gotStep] + " expected " + SN[expStep], false);
+            if (!c.stepWindowOnly) {
+                int expW = expectedDiff(w.mS.bumpedWin, w.snapWinSys, w.mS.sys);
+                int gotW = (int)S.getLowestSystemStageDifference(w.snapWin);
+                c.nChecks++; if (gotW != expW) c.fail("stage-version/lowest-difference-window", std::string("getLowestSystemStageDifference since the start of the history = ") + SN[gotW] + " expected " + SN[expW], false);
+            }
+        }
+        if (c.check) {
+            bool fullT = op.kind == K_COPYCTOR || op.kind == K_ASSIGN_TS || op.kind == K_ASSIGN_ST || op.kind == K_SWAP;
+            oracle(S, w.mS, "S", true, c);
+            oracle(w.T, w.mT, "T", fullT, c);
+        }
+        } catch (const std::exception& e) {
+            c.fail(std::string("unexpected-exception/observer-after-") + KN[op.kind], "an observer (getter) threw after " + op.name + ": " + std::string(e.what()).substr(0, 300));
+            return false;
+        }
+        return !c.bad;
+    }
+
+    static int expectedDiff(const bool* bumped, int p, int nowSys) {
+        for (int g = 1; g <= std::min(p, nowSys); ++g) if (bumped[g]) return g;
+        return nowSys >= p ? INF : nowSys + 1;
+    }
+
+    // Where the documentation leaves the validity of an entry open, follow the implementation once it is observable.
+    void adopt(const State& X, Model& M, Ctx& c, const char* who = "") const {
+        for (int s = 0; s < M.nsub; ++s) for (size_t i = 0; i < M.sub[s].ce.size(); ++i) {
+            MCe& e = M.sub[s].ce[i];
+            int st = M.sub[s].stage;
+            if (e.sinceCopy && e.mark == 0 && st >= e.dep && st < e.comp && X.isCacheValueRealized(SubsystemIndex(s), CacheEntryIndex((int)i))) {
+                // This State object received its content by copy construction / copy assignment and the entry (depends-on above
+                // Instance) has not been marked valid since: "copying only state variables and not the cache".  Precise key; the
+                // model follows the implementation so that the rest of the history stays comparable.
+                // Sub-keyed by whether the source had its depends-on stage realized at the time of the copy (different code paths:
+                // versions of realized source stages are bumped in the copy, versions of unrealized ones are left as they were).
+                c.fail(std::string("copy/entry-above-Instance-reads-valid-in-copy-without-being-marked/") + (e.srcRealized ? "source-had-depends-on-stage-realized" : "source-below-depends-on-stage"),
+                       std::string(who) + ": cache entry (" + std::to_string(s) + "," + std::to_string(i) + ") item " + std::to_string(e.item) + " dependsOn=" + SN[e.dep] + " computedBy=" + SN[e.comp] +
+                       " reads valid at subsystem stage " + SN[st] + " although it was never marked valid in this State object since its content was produced by a copy", false);
+                e.mark = c.nowForResync; e.unspec = false; e.sinceCopy = false;
+                if (e.mark <= e.expl) e.expl = 0;
+                continue;
+            }
+            if (!e.unspec) continue;
+            if (st < e.dep || st >= e.comp) continue;
+            if (!MO.latent(M, s, e)) { e.unspec = false; continue; }    // definitely invalid anyway
+            bool iv = X.isCacheValueRealized(SubsystemIndex(s), CacheEntryIndex((int)i));
+            e.unspec = false; if (!iv) e.mark = 0;
+            if (c.run && c.check) c.run->count(iv ? "unspecified:resolved-valid" : "unspecified:resolved-invalid");
+        }
+    }
+
+    // ---------------------------------------------------------------- the oracle: everything observable, against the model
+    void oracle(const State& X, Model& M, const char* who, bool full, Ctx& c) const {
+        auto bad = [&](const std::string& key, const std::string& msg) { c.fail(key, std::string(who) + ": " + msg); };
+        c.nChecks++;
+        if (X.getNumSubsystems() != M.nsub) { bad("structure/num-subsystems", "getNumSubsystems=" + std::to_string(X.getNumSubsystems()) + " model " + std::to_string(M.nsub)); return; }
+        c.nChecks++;
+        if ((int)X.getSystemStage() != M.sys) bad("stage/system", std::string("system stage ") + SN[(int)X.getSystemStage()] + " model " + SN[M.sys]);
+        for (int s = 0; s < M.nsub; ++s) { c.nChecks++; if ((int)X.getSubsystemStage(SubsystemIndex(s)) != M.sub[s].stage) bad("stage/subsystem", "subsystem " + std::to_string(s) + " stage " + SN[(int)X.getSubsystemStage(SubsystemIndex(s))] + " model " + SN[M.sub[s].stage]); }
+        if (c.bad || M.nsub == 0) return;
+        // time and continuous variables
+        if (M.sys >= TOPO) { c.nChecks++; if (!sameD(X.getTime(), M.t)) bad("value/time", "time " + verif::fmtd(X.getTime()) + " model " + verif::fmtd(M.t)); }
+        if (M.sys >= MODEL) {
+            std::vector<double> gq, gu, gz;
+            auto cmpv = [&](const Vector& v, const std::vector<double>& m, const char* nm, int s) {
+                c.nChecks++;
+                bool ok = v.size() == (int)m.size(); for (int i = 0; ok && i < v.size(); ++i) ok = v[i] == m[i];
+                if (!ok) bad(std::string("value/") + nm, std::string(nm) + " of subsystem " + std::to_string(s) + " differs from the model (size " + std::to_string(v.size()) + " vs " + std::to_string(m.size()) + ")");
+            };
+            std::vector<double> guw, gzw;
+            for (int s = 0; s < M.nsub; ++s) {
+                const MSub& ss = M.sub[s]; SubsystemIndex sx(s);
+                cmpv(X.getQ(sx), ss.q, "q", s); cmpv(X.getU(sx), ss.u, "u", s); cmpv(X.getZ(sx), ss.z, "z", s);
+                cmpv(X.getUWeights(sx), ss.uw, "uWeights", s); cmpv(X.getZWeights(sx), ss.zw, "zWeights", s);
+                gq.insert(gq.end(), ss.q.begin(), ss.q.end()); gu.insert(gu.end(), ss.u.begin(), ss.u.end()); gz.insert(gz.end(), ss.z.begin(), ss.z.end());
+                guw.insert(guw.end(), ss.uw.begin(), ss.uw.end()); gzw.insert(gzw.end(), ss.zw.begin(), ss.zw.end());
+                c.nChecks++; if (X.getQStart(sx) != (int)(gq.size() - ss.q.size()) || X.getUStart(sx) != (int)(gu.size() - ss.u.size()) || X.getZStart(sx) != (int)(gz.size() - ss.z.size())) bad("structure/start-index", "q/u/z start index of subsystem " + std::to_string(s));
+            }
+            std::vector<double> gy = gq; gy.insert(gy.end(), gu.begin(), gu.end()); gy.insert(gy.end(), gz.begin(), gz.end());
+            cmpv(X.getQ(), gq, "global-q", -1); cmpv(X.getU(), gu, "global-u", -1); cmpv(X.getZ(), gz, "global-z", -1); cmpv(X.getY(), gy, "global-y", -1);
+            cmpv(X.getUWeights(), guw, "global-uWeights", -1); cmpv(X.getZWeights(), gzw, "global-zWeights", -1);
+            if (M.sys >= INST) {
+                std::vector<double> gqe, gue; int nud = 0, ntr = 0;
+                for (int s = 0; s < M.nsub; ++s) {
+                    const MSub& ss = M.sub[s]; SubsystemIndex sx(s);
+                    cmpv(X.getQErrWeights(sx), ss.qew, "qErrWeights", s); cmpv(X.getUErrWeights(sx), ss.uew, "uErrWeights", s);
+                    gqe.insert(gqe.end(), ss.qew.begin(), ss.qew.end()); gue.insert(gue.end(), ss.uew.begin(), ss.uew.end());
+                    int nd = sumBlocks(ss.udeb); nud += nd; ntr += sumBlocks(ss.trg);
+                    c.nChecks++; if (X.getNQErr(sx) != (int)ss.qew.size() || X.getNUErr(sx) != (int)ss.uew.size() || X.getNUDotErr(sx) != nd || X.getNMultipliers(sx) != nd) bad("structure/constraint-error-sizes", "per-subsystem constraint error sizes of subsystem " + std::to_string(s));
+                }
+                cmpv(X.getQErrWeights(), gqe, "global-qErrWeights", -1); cmpv(X.getUErrWeights(), gue, "global-uErrWeights", -1);
+                c.nChecks++; if (X.getNYErr() != (int)(gqe.size() + gue.size()) || X.getNUDotErr() != nud || X.getNMultipliers() != nud || X.getNEventTriggers() != ntr) bad("structure/constraint-error-sizes", "global constraint error / trigger sizes");
+            }
+        }
+        // discrete variables and cache entries
+        std::vector<std::vector<std::pair<int,int>>> expQ(3);   // expected dependents of q,u,z
+        for (int s = 0; s < M.nsub; ++s) {
+            MSub& ss = M.sub[s]; SubsystemIndex sx(s);
+            const PerSubsystemInfo& pi = X.getPerSubsystemInfo(sx);
+            c.nChecks++;
+            if ((int)pi.discreteInfo.size() != (int)ss.dv.size() || (int)pi.cacheInfo.size() != (int)ss.ce.size()) { bad("structure/allocation-stack", "subsystem " + std::to_string(s) + " has " + std::to_string(pi.discreteInfo.size()) + " discrete variables / " + std::to_string(pi.cacheInfo.size()) + " cache entries, model " + std::to_string(ss.dv.size()) + "/" + std::to_string(ss.ce.size())); return; }
+            for (size_t i = 0; i < ss.dv.size(); ++i) {
+                const MDv& d = ss.dv[i]; DiscreteVariableIndex dx((int)i);
+                c.nChecks += 3;
+                double v = Value<double>::downcast(X.getDiscreteVariable(sx, dx)).get();
+                if (v != d.val) bad("value/discrete-variable", "discrete variable (" + std::to_string(s) + "," + std::to_string(i) + ") = " + verif::fmtd(v) + " model " + verif::fmtd(d.val));
+                if (!sameD(X.getDiscreteVarLastUpdateTime(sx, dx), d.lastUpdT)) bad("value/discrete-variable-last-update-time", "last update time of (" + std::to_string(s) + "," + std::to_string(i) + ") = " + verif::fmtd(X.getDiscreteVarLastUpdateTime(sx, dx)) + " model " + verif::fmtd(d.lastUpdT));
+                if ((int)X.getDiscreteVarInvalidatesStage(sx, dx) != d.inval || (int)X.getDiscreteVarAllocationStage(sx, dx) != d.alloc || (d.isAuto ? (int)X.getDiscreteVarUpdateIndex(sx, dx) != d.ce : X.getDiscreteVarUpdateIndex(sx, dx).isValid())) bad("structure/discrete-variable-attributes", "attributes of discrete variable (" + std::to_string(s) + "," + std::to_string(i) + ")");
+            }
+            for (size_t i = 0; i < ss.ce.size(); ++i) {
+                MCe& e = ss.ce[i]; CacheEntryIndex cx((int)i);
+                Tri mv = MO.valid(M, s, e);
+                bool iv = X.isCacheValueRealized(sx, cx);
+                c.nChecks++;
+                if (mv == UNSPEC) { if (c.run) c.run->count("unspecified:validity-not-compared"); }
+                else if (iv != (mv == YES)) {
+                    const Item& it = F.items[e.item];
+                    std::string cls = std::string(e.isAuto ? "auto-update-entry" : "entry") + (it.kind == 'C' && (it.pq || it.pu || it.pz || !it.pd.empty() || !it.pc.empty()) ? "-with-prerequisites" : "");
+                    bad(std::string(iv ? "cache/valid-but-model-stale/" : "cache/stale-but-model-valid/") + cls,
+                        "cache entry (" + std::to_string(s) + "," + std::to_string(i) + ") item " + std::to_string(e.item) + " dependsOn=" + SN[e.dep] + " computedBy=" + SN[e.comp] + " isCacheValueRealized=" + std::to_string(iv) + " but the model says " + (mv == YES ? "valid" : "stale") + " at subsystem stage " + SN[ss.stage]);
+                }
+                if (iv || full) {
+                    bool threw = false; double v = NaN;
+                    try { v = Value<double>::downcast(X.getCacheEntry(sx, cx)).get(); } catch (const std::exception&) { threw = true; }
+                    c.nChecks++;
+                    if (threw == iv) bad("cache/getCacheEntry-throws-iff-stale", "getCacheEntry on (" + std::to_string(s) + "," + std::to_string(i) + ") " + (threw ? "threw" : "did not throw") + " although isCacheValueRealized=" + std::to_string(iv));
+                    if (!threw && mv != NO) { c.nChecks++; if (v != e.val) bad("value/cache-entry", "valid cache entry (" + std::to_string(s) + "," + std::to_string(i) + ") holds " + verif::fmtd(v) + " model " + verif::fmtd(e.val)); }
+                }
+                if (e.isAuto) { c.nChecks++; if (X.isDiscreteVarUpdateValueRealized(sx, DiscreteVariableIndex(e.dv)) != iv) bad("cache/auto-update-alias", "isDiscreteVarUpdateValueRealized disagrees with isCacheValueRealized"); }
+                if (full) {
+                    c.nChecks++;
+                    double uvv = Value<double>::downcast(X.updCacheEntry(sx, cx)).get();   // reading through the writable accessor: must not change validity
+                    if (uvv != e.val && mv != NO) bad("value/cache-entry", "updCacheEntry value of (" + std::to_string(s) + "," + std::to_string(i) + ")");
+                    if (X.isCacheValueRealized(sx, cx) != iv) bad("cache/updCacheEntry-changed-validity", "updCacheEntry changed validity");
+                    if ((int)X.getCacheEntryAllocationStage(sx, cx) != e.alloc) bad("structure/cache-entry-attributes", "allocation stage of cache entry");
+                }
+                const Item& it = F.items[e.item];
+                if (it.kind == 'C') { if (it.pq) expQ[0].push_back({s, (int)i}); if (it.pu) expQ[1].push_back({s, (int)i}); if (it.pz) expQ[2].push_back({s, (int)i}); }
+            }
+        }
+        if (c.bad || !full) return;
+        // dependents lists (public "advanced" API, exercised by StateTest): exactly the registered dependents
+        auto same = [&](const ListOfDependents& l, std::vector<std::pair<int,int>> exp) {
+            std::vector<std::pair<int,int>> got; for (auto it = l.cbegin(); it != l.cend(); ++it) got.push_back({(int)it->first, (int)it->second});
+            std::sort(got.begin(), got.end()); std::sort(exp.begin(), exp.end()); return got == exp;
+        };
+        c.nChecks += 3;
+        if (!same(X.getQDependents(), expQ[0]) || !same(X.getUDependents(), expQ[1]) || !same(X.getZDependents(), expQ[2])) bad("dependents/qUZ-lists", "q/u/z dependents lists differ from the registered prerequisites");
+        for (size_t p = 0; p < F.items.size(); ++p) {
+            const Item& pit = F.items[p];
+            if (pit.kind != 'D' && pit.kind != 'A' && pit.kind != 'C') continue;
+            std::vector<std::pair<int,int>> expD, expC;
+            for (size_t j = 0; j < F.items.size(); ++j) {
+                if (F.items[j].kind != 'C' || M.ceOf[j] < 0) continue;
+                for (int d : F.items[j].pd) if (d == (int)p) expD.push_back({F.items[j].sub, M.ceOf[j]});
+                for (int e : F.items[j].pc) if (e == (int)p) expC.push_back({F.items[j].sub, M.ceOf[j]});
+            }
+            if ((pit.kind == 'D' || pit.kind == 'A') && M.dvOf[p] >= 0) { c.nChecks++; if (!same(X.getDiscreteVarInfo(DiscreteVarKey(SubsystemIndex(pit.sub), DiscreteVariableIndex(M.dvOf[p]))).getDependents(), expD)) bad("dependents/discrete-variable-list", "dependents of discrete variable item " + std::to_string(p)); }
+            if ((pit.kind == 'C' || pit.kind == 'A') && M.ceOf[p] >= 0) { c.nChecks++; if (!same(X.getCacheEntryInfo(CacheEntryKey(SubsystemIndex(pit.sub), CacheEntryIndex(M.ceOf[p]))).getDependents(), expC)) bad("dependents/cache-entry-list", "dependents of cache entry item " + std::to_string(p)); }
+        }
+    }
+
+    // ---------------------------------------------------------------- canonical state (BFS merging)
+    // stages, values, per-entry hidden relations (saved depends-on version == current, up-to-date flag) -- never raw
+    // counters -- plus the model's own latent relations (so that two merged histories have the same model future).
+    static void put(std::string& k, const void* p, size_t n) { k.append((const char*)p, n); }
+    static void putD(std::string& k, double d) { if (std::isnan(d)) d = NaN; uint64_t b; memcpy(&b, &d, 8); if (d == 0) b = 0; put(k, &b, 8); }
+    static void putI(std::string& k, int i) { put(k, &i, 4); }
+    void canonOne(std::string& k, const State& X, const Model& M) const {
+        putI(k, M.nsub); putI(k, M.sys); putD(k, M.t);
+        for (int s = 0; s < M.nsub; ++s) {
+            const MSub& ss = M.sub[s];
+            const PerSubsystemInfo& pi = X.getPerSubsystemInfo(SubsystemIndex(s));
+            putI(k, ss.stage); putI(k, (int)pi.getCurrentStage());
+            for (auto* v : {&ss.q, &ss.u, &ss.z, &ss.uw, &ss.zw, &ss.qew, &ss.uew}) { putI(k, (int)v->size()); for (double d : *v) putD(k, d); }
+            putI(k, (int)ss.dv.size());
+            for (auto& d : ss.dv) { putD(k, d.val); putD(k, d.lastUpdT); }
+            putI(k, (int)pi.cacheInfo.size());
+            for (size_t i = 0; i < pi.cacheInfo.size(); ++i) {
+                const CacheEntryInfo& ce = pi.cacheInfo[(int)i];
+                char b[6];
+                b[0] = ce.m_dependsOnVersionWhenLastComputed == pi.stageVersions[(int)ce.m_dependsOnStage];
+                b[1] = ce.m_isUpToDateWithPrerequisites;
+                const MCe& e = ss.ce[i];
+                b[2] = MO.latent(M, s, e); b[3] = e.unspec; b[4] = e.ambig; b[5] = 0;
+                put(k, b, 6);
+                putD(k, Value<double>::downcast(*ce.m_value).get());
+            }
+        }
+    }
+    std::pair<uint64_t, uint64_t> canon(const World& w) const {
+        std::string k; k.reserve(512);
+        canonOne(k, w.S, w.mS); k.push_back('|'); canonOne(k, w.T, w.mT);
+        return {verif::fnv1a(k.data(), k.size()), verif::fnv1a(k.data(), k.size(), 0x9E3779B97F4A7C15ULL)};
+    }
+    uint64_t outcomeHash(const World& w) const {
+        std::string k;
+        for (const State* X : {&w.S, &w.T}) {
+            putI(k, (int)X->getSystemStage());
+            for (int s = 0; s < X->getNumSubsystems(); ++s) {
+                putI(k, (int)X->getSubsystemStage(SubsystemIndex(s)));
+                const PerSubsystemInfo& pi = X->getPerSubsystemInfo(SubsystemIndex(s));
+                for (size_t i = 0; i < pi.cacheInfo.size(); ++i) k.push_back(X->isCacheValueRealized(SubsystemIndex(s), CacheEntryIndex((int)i)) ? 'v' : 's');
+            }
+        }
+        return verif::hashStr(k);
+    }
+
+    int opId(int kind, int a) const { for (size_t i = 0; i < ops.size(); ++i) if (ops[i].kind == kind && ops[i].a == a) return (int)i; return -1; }
+    int opByName(const std::string& n) const { for (size_t i = 0; i < ops.size(); ++i) if (ops[i].name == n) return (int)i; return -1; }
+};
+
+// ------------------------------------------------------------------ bases: deterministic prefixes that bring the State to an interesting region
+struct Base { std::string name; int level; bool mark; int stagger; };   // stagger: -1 none, else the first subsystem in order goes to Report, the others to `level`
+std::vector<Base> makeBases() {
+    std::vector<Base> B;
+    B.push_back({"empty", 0, false, -1});
+    for (int g : {MODEL, INST, TIME, POS, VEL, DYN, ACC, REP}) B.push_back({std::string("R-") + SN[g], g, false, -1});
+    for (int g : {INST, TIME, POS, VEL, DYN, ACC, REP}) B.push_back({std::string("R-") + SN[g] + "+marked", g, true, -1});
+    B.push_back({"stagger-Time+marked", TIME, true, 1});
+    B.push_back({"stagger-Model", MODEL, false, 1});
+    return B;
+}
+
+struct Case {
+    const Engine* E; const Base* B;
+    std::vector<int> prefix;     // op ids of the base
+};
+
+// prefix of a base, computed on a scratch world
+std::vector<int> computePrefix(const Engine& E, const Base& B) {
+    std::vector<int> pre;
+    World w; Ctx c;
+    auto doOp = [&](int id) { if (id < 0 || !E.enabled(w, E.ops[id])) return false; pre.push_back(id); Ctx cc; return E.apply(w, E.ops[id], cc); };
+    doOp(E.opId(K_INIT, 0));
+    for (int g = 1; g <= B.level; ++g) { for (int s : E.F.order) doOp(E.opId(K_ADV, s)); doOp(E.opId(K_ADVSYS, 0)); }
+    if (B.stagger >= 0) for (int g = B.level + 1; g <= REP; ++g) doOp(E.opId(K_ADV, E.F.order[0]));
+    if (B.mark)
+        for (size_t i = 0; i < E.F.items.size(); ++i) {
+            int id = E.opId(K_MARK, (int)i); if (id < 0 || w.mS.ceOf[i] < 0) continue;
+            const MCe& e = E.MO.ceOfItem(w.mS, (int)i);
+            if (w.mS.sub[E.F.items[i].sub].stage >= e.dep) doOp(id);     // only marks that satisfy the documented precondition
+        }
+    return pre;
+}
+
+// fresh world = prefix + history, replayed silently; false if a replayed step diverged (reported at its own node)
+bool build(const Case& cs, const std::vector<uint8_t>& hist, World& w) {
+    Ctx c;
+    for (int id : cs.prefix) { if (!cs.E->apply(w, cs.E->ops[id], c)) return false; }
+    w.S.getSystemStageVersions(w.snapWin); w.snapWinSys = w.mS.sys; for (int i = 0; i < 11; ++i) w.mS.bumpedWin[i] = false;
+    for (uint8_t id : hist) { if (!cs.E->apply(w, cs.E->ops[id], c)) return false; }
+    return true;
+}
+
+std::string histStr(const Case& cs, const std::vector<uint8_t>& hist, int extra = -1) {
+    std::string s;
+    for (uint8_t id : hist) { if (!s.empty()) s += " "; s += cs.E->ops[id].name; }
+    if (extra >= 0) { if (!s.empty()) s += " "; s += cs.E->ops[extra].name; }
+    return s;
+}
+std::string replayText(verif::Run& run, const Case& cs, const std::vector<uint8_t>& hist, int extra) {
+    return run.replayHeader() + "fixture=" + cs.E->F.name + "\nbase=" + cs.B->name + "\nseed=" + std::to_string(run.seed) + "\nops=" + histStr(cs, hist, extra) + "\n";
+}
+
+struct Tally { int64_t nodes = 0, checks = 0, pruned = 0, buildDiverged = 0; };
+
+// Evaluate every enabled operation as the next operation after `hist` (each on a freshly replayed world, complete oracle).
+// fn(opIdx, world, ok) is called for every evaluated node; ok = the history may be extended.
+template <class Fn>
+void forEachChild(verif::Run& run, const Case& cs, const std::vector<uint8_t>& hist, bool stepOnly, Tally& t, int onlyOp, Fn&& fn) {
+    const Engine& E = *cs.E;
+    std::vector<char> en(E.ops.size(), 0);
+    { World w0; if (!build(cs, hist, w0)) { t.buildDiverged++; return; } for (size_t i = 0; i < E.ops.size(); ++i) en[i] = E.enabled(w0, E.ops[i]); }
+    for (size_t i = 0; i < E.ops.size(); ++i) {
+        if (!en[i] || (onlyOp >= 0 && (int)i != onlyOp)) continue;
+        if (run.expired()) return;
+        World w;
+        if (!build(cs, hist, w)) { t.buildDiverged++; return; }
+        const Op& op = E.ops[i];
+        Ctx c; c.run = &run; c.check = true; c.stepWindowOnly = stepOnly; c.tag = std::string(stepOnly ? "bfs" : "plain") + "|" + E.F.name;
+        c.where = [&] { return "fixture=" + E.F.name + " base=" + cs.B->name + " ops=[" + histStr(cs, hist, (int)i) + "]"; };
+        c.replay = [&] { return replayText(run, cs, hist, (int)i); };
+        bool ok = E.apply(w, op, c);
+        t.nodes++; t.checks += c.nChecks;
+        run.evaluationDistinct(true);
+        run.outcome(E.outcomeHash(w));
+        if (!ok) t.pruned++;
+        fn((int)i, w, ok);
+    }
+}
+
+// ---- plain enumeration: histories core^k x full, k < depth, no merging
+void plainDfs(verif::Run& run, const Case& cs, std::vector<uint8_t>& hist, int depth, Tally& t, int onlyOp = -1) {
+    std::vector<int> extend;
+    forEachChild(run, cs, hist, false, t, onlyOp, [&](int i, World&, bool ok) { if (ok && cs.E->ops[i].core) extend.push_back(i); });
+    if ((int)hist.size() + 1 >= depth) return;
+    for (int i : extend) { hist.push_back((uint8_t)i); plainDfs(run, cs, hist, depth, t); hist.pop_back(); }
+}
+
+struct KeyHash { size_t operator()(const std::pair<uint64_t, uint64_t>& k) const { return (size_t)(k.first ^ (k.second * 0x9E3779B97F4A7C15ULL)); } };
+
+// ---- BFS with canonical-state merging, full alphabet at every level
+void bfs(verif::Run& run, const Case& cs, int maxDepth, int64_t maxStates, int plainDepth, Tally& t) {
+    const Engine& E = *cs.E;
+    std::unordered_set<std::pair<uint64_t, uint64_t>, KeyHash> seen;
+    std::vector<std::vector<uint8_t>> frontier, next;
+    { World w; std::vector<uint8_t> h; if (!build(cs, h, w)) return; auto k = E.canon(w); seen.insert(k); run.state(k.first); frontier.push_back(h); }
+    int depth = 0; bool capped = false;
+    int64_t replayChecks = 0;
+    while (!frontier.empty() && depth < maxDepth) {
+        next.clear();
+        for (auto& h : frontier) {
+            if (run.expired()) { capped = true; break; }
+            forEachChild(run, cs, h, true, t, -1, [&](int i, World& w, bool ok) {
+                if (!ok) return;
+                auto k = E.canon(w);
+                if (!seen.insert(k).second) return;
+                run.state(k.first);
+                std::vector<uint8_t> h2 = h; h2.push_back((uint8_t)i);
+                if ((seen.size() & 63) == 0) {   // canon-on-replay: the same history built twice must give the same canonical key
+                    World w2; bool b = build(cs, h2, w2); replayChecks++;
+                    if (!b || E.canon(w2) != k) run.harnessError("canonical key of a replayed history differs: " + histStr(cs, h2));
+                }
+                next.push_back(std::move(h2));
+            });
+            if ((int64_t)seen.size() > maxStates) { capped = true; break; }
+        }
+        if (capped) break;
+        frontier.swap(next); depth++;
+    }
+    bool fix = !capped && frontier.empty();
+    run.count(fix ? "bfs:fixpoint-reached" : (capped ? "bfs:state-cap-or-deadline" : "bfs:depth-bound-reached"));
+    if (capped && run.expired()) run.acc.expired = true;
+    run.count("bfs:canonical-states-summed-over-items", (int64_t)seen.size());
+    run.count("bfs:canon-on-replay-checks", replayChecks);
+    run.count("bfs:levels-completed-summed", depth);
+    if (!fix && depth < plainDepth) run.count("bfs-shallower-than-plain|" + E.F.name);
+    run.count("bfs:unexpanded-frontier-states", capped ? (int64_t)frontier.size() + (int64_t)next.size() : (int64_t)frontier.size());
+    if (cs.B->level == POS || cs.B->level == 0) run.sample("bfs fixture=" + E.F.name + " base=" + cs.B->name + " states=" + std::to_string(seen.size()) + " levels=" + std::to_string(depth) + (fix ? " fixpoint" : capped ? " state-cap" : " depth-bound"));
+}
+
+}  // namespace
+
+// ------------------------------------------------------------------ main
+int main(int argc, char** argv) {
+    verif::Run run("C18", argc, argv);
+    run.setDeadline(150, 2400);
+    run.maxSamples = 40;
+    const bool thorough = run.thorough();
+    long seed = run.replaying() && !run.replayField("seed").empty() ? atol(run.replayField("seed").c_str()) : run.seed;
+    VV = &VALSETS[((seed % NVALSETS) + NVALSETS) % NVALSETS];
+
+    auto fixtures = makeFixtures();
+    auto bases = makeBases();
+    std::vector<Engine> engines; engines.reserve(fixtures.size());
+    for (auto& f : fixtures) engines.emplace_back(f);
+
+    run.rule = "E2 histories on a bare SimTK::State: case = (fixture, base prefix, operation sequence); every node of the history tree is replayed on "
+               "fresh State objects S (primary) and T (copy target) in lockstep with a clock-based reference model and judged by the complete oracle "
+               "(stages, values, isCacheValueRealized, getCacheEntry throws iff stale, value/stage versions, dependents lists, independence of T). "
+               "plain = all sequences core^k x full (k < depth) without merging; bfs = breadth-first over the full alphabet with canonical-state merging. "
+               "Only operations whose documented preconditions hold are applied. non-trivial = every evaluated node (a real operation on the real State)";
+    run.assumptions = {"operations are applied only where State.h's documented preconditions hold (Release builds do not check them)",
+                       "continuous values come from a 2-value alphabet per variable selected by VERIF_SEED (+ the initial value)",
+                       "where the documentation leaves validity open (marks below the documented minimum stage, Instance-and-below entries in a copy, markCacheValueNotRealized at the computed-by stage, dependents of an auto-update variable at the swap) the implementation's answer is adopted and counted, not judged",
+                       "fixtures are finite: 1-3 subsystems, <= 8 discrete variables, <= 7 cache entries",
+                       "BFS merging trusts the canonical form (stages, values, per-entry <saved-version == current, up-to-date flag>, model relations); the plain mode does not"};
+
+    // ---------------------------------------------------------------- replay: one history, linearly, verbose
+    if (run.replaying()) {
+        std::string fx = run.replayField("fixture"), bn = run.replayField("base"), opsS = run.replayField("ops");
+        const Engine* E = nullptr; const Base* B = nullptr;
+        for (auto& e : engines) if (e.F.name == fx) E = &e;
+        for (auto& b : bases) if (b.name == bn) B = &b;
+        if (!E || !B) { fprintf(stderr, "replay: unknown fixture/base\n"); return 2; }
+        Case cs{E, B, computePrefix(*E, *B)};
+        printf("fixture=%s base=%s seed=%ld values={%g,%g}\n", fx.c_str(), bn.c_str(), seed, VV->v[0], VV->v[1]);
+        printf("fixture items:\n");
+        for (size_t i = 0; i < E->F.items.size(); ++i) {
+            const Item& it = E->F.items[i];
+            printf("  item %zu: kind=%c sub=%d allocated-while-realizing=%s", i, it.kind, it.sub, SN[it.alloc]);
+            if (it.kind == 'D') printf(" invalidates=%s", SN[it.a]);
+            if (it.kind == 'A') printf(" invalidates=%s updateDependsOn=%s", SN[it.a], SN[it.b]);
+            if (it.kind == 'C') { printf(" dependsOn=%s computedBy=%s prereq:%s%s%s", SN[it.a], SN[it.b], it.pq ? " q" : "", it.pu ? " u" : "", it.pz ? " z" : ""); for (int d : it.pd) printf(" dv-item%d", d); for (int c : it.pc) printf(" ce-item%d", c); }
+            if (it.kind == 'Q' || it.kind == 'U' || it.kind == 'Z') printf(" n=%d", it.a);
+            printf("\n");
+        }
+        std::vector<int> seq = cs.prefix; size_t nPre = seq.size();
+        { std::istringstream is(opsS); std::string tok; while (is >> tok) { int id = E->opByName(tok); if (id < 0) { fprintf(stderr, "replay: unknown op %s\n", tok.c_str()); return 2; } seq.push_back(id); } }
+        World w; int rc = 0;
+        for (size_t k = 0; k < seq.size(); ++k) {
+            if (k == nPre) { w.S.getSystemStageVersions(w.snapWin); w.snapWinSys = w.mS.sys; for (int i = 0; i < 11; ++i) w.mS.bumpedWin[i] = false; printf("---- end of base prefix\n"); }
+            const Op& op = E->ops[seq[k]];
+            if (!E->enabled(w, op)) { printf("step %zu %s: NOT ENABLED (precondition)\n", k, op.name.c_str()); return 2; }
+            Ctx c; c.run = &run; c.check = true; c.where = [&] { return "step " + std::to_string(k) + " " + op.name; };
+            bool ok = E->apply(w, op, c);
+            printf("step %2zu %-22s -> S: sys=%s sub=[", k, op.name.c_str(), SN[(int)w.S.getSystemStage()]);
+            for (int s = 0; s < w.S.getNumSubsystems(); ++s) printf("%s%s", s ? "," : "", SN[(int)w.S.getSubsystemStage(SubsystemIndex(s))]);
+            printf("] valid={");
+            for (int s = 0; s < w.mS.nsub; ++s) for (size_t i = 0; i < w.mS.sub[s].ce.size(); ++i) { Tri mv = E->MO.valid(w.mS, s, w.mS.sub[s].ce[i]); printf(" (%d,%zu)item%d:impl=%d/model=%s", s, i, w.mS.sub[s].ce[i].item, (int)w.S.isCacheValueRealized(SubsystemIndex(s), CacheEntryIndex((int)i)), mv == YES ? "valid" : mv == NO ? "stale" : "unspecified"); }
+            printf(" } T: sys=%s nsub=%d\n", SN[(int)w.T.getSystemStage()], w.T.getNumSubsystems());
+            if (!ok) { printf("  diverged at this step; stopping\n"); rc = 1; break; }
+        }
+        if (!run.acc.viols.empty()) rc = 1;
+        for (auto& v : run.acc.viols) printf("  ORACLE key=%s %s\n", v.key.c_str(), v.what.c_str());
+        if (rc) printf("VIOLATION property=C18 replay=%s\n", run.replayPath.c_str());
+        return rc;
+    }
+
+    if (run.hasFlag("--bench")) {
+        for (int fx : {0, 1, 2}) {
+            const Engine& E = engines[fx]; const Base& B = bases[15];
+            Case cs{&E, &B, computePrefix(E, B)};
+            std::vector<uint8_t> h; h.push_back((uint8_t)E.opId(K_Q, 0)); h.push_back((uint8_t)E.opId(K_ADV, 0));
+            auto t0 = std::chrono::steady_clock::now();
+            int N = 20000;
+            for (int i = 0; i < N; ++i) { World w; build(cs, h, w); }
+            auto t1 = std::chrono::steady_clock::now();
+            Tally t;
+            for (int i = 0; i < N; ++i) { forEachChild(run, cs, h, false, t, E.opId(K_TIME, 0), [&](int, World&, bool) {}); }
+            auto t2 = std::chrono::steady_clock::now();
+            for (int i = 0; i < N; ++i) { World w; }
+            auto t3 = std::chrono::steady_clock::now();
+            printf("fixture %s prefix=%zu: build %.2f us, evalNode %.2f us (checks/node %.1f), empty world %.2f us\n", E.F.name.c_str(), cs.prefix.size(),
+                   std::chrono::duration<double>(t1 - t0).count() / N * 1e6, std::chrono::duration<double>(t2 - t1).count() / N * 1e6, (double)t.checks / t.nodes, std::chrono::duration<double>(t3 - t2).count() / N * 1e6);
+        }
+        return 0;
+    }
+    // ---------------------------------------------------------------- tiers
+    // plain: (fixture index, depth) ; bfs: (fixture index, max depth, state cap per (fixture, base))
+    struct PlainCfg { int fx, depth; }; struct BfsCfg { int fx, depth; int64_t cap; };
+    std::vector<PlainCfg> plainCfg; std::vector<BfsCfg> bfsCfg;
+    int plainDefault = thorough ? 4 : 3;
+    for (const std::string& a : run.extra) if (a.rfind("--plain-depth=", 0) == 0) plainDefault = atoi(a.c_str() + 14);
+    int bfsDefault = thorough ? 6 : 3;
+    for (const std::string& a : run.extra) if (a.rfind("--bfs-depth=", 0) == 0) bfsDefault = atoi(a.c_str() + 12);
+    int64_t capDefault = thorough ? 12000 : 1200;
+    for (const std::string& a : run.extra) if (a.rfind("--bfs-cap=", 0) == 0) capDefault = atoll(a.c_str() + 10);
+    const int bfsTinyDepth = bfsDefault + (thorough ? 6 : 2);
+    for (int i = 0; i < (int)engines.size(); ++i) {
+        plainCfg.push_back({i, i == 0 ? plainDefault + 1 : plainDefault});
+        if (thorough || i <= 2) bfsCfg.push_back({i, i == 0 ? bfsTinyDepth : bfsDefault, i == 0 ? capDefault * 4 : capDefault});
+    }
+
+    std::vector<Case> cases;
+    for (auto& E : engines) for (auto& B : bases) cases.push_back(Case{&E, &B, computePrefix(E, B)});
+    auto caseOf = [&](int fx, int b) -> const Case& { return cases[fx * bases.size() + b]; };
+
+    // ---- section 1: plain enumeration, sharded over (fixture, base, first operation)
+    struct PItem { int fx, b, op, depth; };
+    std::vector<PItem> pitems;
+    for (auto& pc : plainCfg) for (int b = 0; b < (int)bases.size(); ++b) for (int o = 0; o < (int)engines[pc.fx].ops.size(); ++o) pitems.push_back({pc.fx, b, o, pc.depth});
+    run.parallel("plain", (int64_t)pitems.size(), [&](int64_t idx) {
+        const PItem& p = pitems[idx]; const Case& cs = caseOf(p.fx, p.b); const Engine& E = *cs.E;
+        Tally t; std::vector<uint8_t> hist;
+        plainDfs(run, cs, hist, 1, t, p.op);                       // the first operation of this shard
+        if (t.nodes == 1 && t.pruned == 0 && E.ops[p.op].core && p.depth > 1) { hist.push_back((uint8_t)p.op); plainDfs(run, cs, hist, p.depth, t); }
+        run.transition(t.checks);
+        run.count("plain:nodes", t.nodes); run.count("plain:pruned-after-violation", t.pruned); run.count("plain:prefix-diverged", t.buildDiverged);
+        run.count("plain:nodes:" + E.F.name, t.nodes);
+        if (t.nodes > 1 && idx % 211 == 0) run.sample("plain fixture=" + E.F.name + " base=" + cs.B->name + " first-op=" + E.ops[p.op].name + " depth=" + std::to_string(p.depth) + " -> nodes=" + std::to_string(t.nodes) + " checks=" + std::to_string(t.checks));
+    });
+    // ---- section 2: BFS with merging, sharded over (fixture, base)
+    struct BItem { int fx, b, depth; int64_t cap; int plainDepth; };
+    std::vector<BItem> bitems;
+    for (auto& bc : bfsCfg) for (int b = 0; b < (int)bases.size(); ++b) bitems.push_back({bc.fx, b, bc.depth, bc.cap, plainCfg[bc.fx].depth});
+    run.parallel("bfs", (int64_t)bitems.size(), [&](int64_t idx) {
+        const BItem& p = bitems[idx]; const Case& cs = caseOf(p.fx, p.b);
+        Tally t;
+        bfs(run, cs, p.depth, p.cap, p.plainDepth, t);
+        run.transition(t.checks);
+        run.count("bfs:nodes", t.nodes); run.count("bfs:pruned-after-violation", t.pruned);
+        run.count("bfs:nodes:" + cs.E->F.name, t.nodes);
+    });
+    // The two modes must agree: a violation key seen by the plain enumeration in a fixture must also be seen by the BFS with
+    // merging in that fixture, provided the BFS covered that fixture at least to the plain depth from every base.
+    {
+        std::set<int> inBfs; for (auto& bc : bfsCfg) inBfs.insert(bc.fx);
+        int compared = 0;
+        for (auto& kv : run.acc.counters) {
+            if (kv.first.rfind("viol|plain|", 0) != 0 || kv.first.find("lowest-difference-window") != std::string::npos) continue;   // the window oracle exists only in the plain mode
+            std::string rest = kv.first.substr(11); size_t bar = rest.find('|');
+            std::string fxn = rest.substr(0, bar), key = rest.substr(bar + 1);
+            int fx = -1; for (size_t i = 0; i < engines.size(); ++i) if (engines[i].F.name == fxn) fx = (int)i;
+            if (fx < 0 || !inBfs.count(fx) || run.acc.expired || run.acc.counters.count("bfs-shallower-than-plain|" + fxn)) continue;
+            compared++;
+            if (!run.acc.counters.count("viol|bfs|" + fxn + "|" + key))
+                run.harnessError("violation key " + key + " (fixture " + fxn + ") was found by the plain enumeration but not by the BFS with merging: the canonical abstraction is unsound");
+        }
+        run.count("modes:violation-keys-cross-checked", compared);
+    }
+    run.extraCoverage["plain_depth"] = "\"" + std::to_string(plainDefault) + " (fixture tiny: " + std::to_string(plainDefault + 1) + ")\"";
+    run.extraCoverage["bfs_depth"] = "\"" + std::to_string(bfsDefault) + " (fixture tiny: " + std::to_string(bfsTinyDepth) + "); state cap per (fixture, base) " + std::to_string(capDefault) + " (tiny: " + std::to_string(capDefault * 4) + "); fixtures in BFS: " + std::to_string(bfsCfg.size()) + "\"";
+    run.extraCoverage["fixtures"] = std::to_string(fixtures.size());
+    run.extraCoverage["bases"] = std::to_string(bases.size());
+    { std::string a = "{"; for (size_t i = 0; i < engines.size(); ++i) { int core = 0; for (auto& o : engines[i].ops) core += o.core; a += (i ? ", \"" : "\"") + engines[i].F.name + "\": \"" + std::to_string(engines[i].ops.size()) + " ops (" + std::to_string(core) + " core)\""; } run.extraCoverage["alphabet"] = a + "}"; }
+    return run.finish();
+}
